@@ -68,7 +68,7 @@ class Spacing:
             return ""
         if self.style == "spaced":
             return " "
-        return self.rng.choice(["", "", " ", " ", "  ", "\n", " \n ", "\t"])
+        return self.rng.choice(["", "", " ", " ", "  ", "\n", " \n ", "\t", "\r\n"])
 
     def sep(self, ch):
         return self.ws() + ch + self.ws()
